@@ -39,7 +39,9 @@ RULE = (
     "arbitrary text} × call history (≤5 calls; exhaust / take-k then close|cancel / exchange n inputs then close|"
     "cancel) × transport ∈ {pipe, unix, tcp, shm, HTTP cap ∈ {None,1,700,1MiB} × compression ∈ {off,zstd,gzip}} × "
     "access-logger level ∈ {INFO, DEBUG} × formatter max_record_bytes ∈ {default, 4096}. Non-trivial = the history "
-    "has a failure or a stream with ≥2 batches; distinct by SHA-1 of the JSON case."
+    "has a failure or a stream with ≥2 batches. Second family 'sites': one raise of a generated class/message at each "
+    "dispatch site (unary, init with/without header, producer step 0/k, exchange response 0/k) between clean unary calls, "
+    "× the same transport/level/formatter matrix (always non-trivial). Distinct by SHA-1 of the JSON case."
 )
 ASSUMPTIONS = [
     "only well-formed calls are generated, so every request is dispatched (pre-dispatch 4xx rejections, e.g. the 415 codec renegotiation, legitimately have no record)",
@@ -121,6 +123,60 @@ def histories(draw: st.DrawFn) -> dict[str, Any]:
         "level": draw(st.sampled_from(["INFO", "DEBUG"])),
         "fmt_cap": draw(st.sampled_from([None, None, None, None, 4096])),
     }
+
+
+SITES = ["unary", "init", "init_header", "produce0", "producek", "exchange0", "exchangek"]
+
+sites = st.fixed_dictionaries(
+    {
+        "exc": st.sampled_from(programs.EXC_NAMES),
+        "msg": MSGS,
+        "site": st.sampled_from(SITES),
+        "k": st.integers(1, 3),
+        "end": st.sampled_from(["close", "cancel"]),
+        "ok_first": st.booleans(),
+        "cfg": st.sampled_from(range(len(CFGS))),
+        "level": st.sampled_from(["INFO", "DEBUG"]),
+        "fmt_cap": st.sampled_from([None, None, None, None, 4096]),
+    }
+)
+
+
+def site_spec(case: dict[str, Any]) -> dict[str, Any]:
+    """One failing method (raise at the chosen dispatch site after k clean turns) between two clean unary calls."""
+    act = {"op": "raise", "exc": case["exc"], "msg": case["msg"]}
+    site, k = case["site"], case["k"]
+    cols = [{"name": "c0", "type": "int64"}]
+    emit = {"logs": [], "action": {"op": "emit", "rows": {"c0": [1, 2]}, "meta": None}}
+    ok_unary = {"name": "ok", "kind": "unary", "params": [{"name": "p0", "type": "int"}], "ret": "int",
+                "behaviour": {"logs": [], "action": {"op": "return_arg", "arg": "p0"}}}
+    if site == "unary":
+        m: dict[str, Any] = {"name": "target", "kind": "unary", "params": [{"name": "p0", "type": "str"}], "ret": "int", "behaviour": {"logs": [], "action": act}}
+        call: dict[str, Any] = {"mid": 1, "args": {"p0": "arg ✓"}}
+    elif site in ("init", "init_header"):
+        hdr = {"fields": [{"name": "h0", "type": "int"}], "value": {"h0": 7}} if site == "init_header" else None
+        m = {"name": "target", "kind": "producer", "params": [{"name": "p0", "type": "int"}], "header": hdr, "out_cols": cols,
+             "init": {"logs": [], "action": act}, "steps": [emit]}
+        call = {"mid": 1, "args": {"p0": 5}, "take": None, "end": "exhaust"}
+    elif site in ("produce0", "producek"):
+        n = 0 if site == "produce0" else k
+        m = {"name": "target", "kind": "producer", "params": [], "header": None, "out_cols": cols,
+             "init": {"logs": [], "action": {"op": "ok"}}, "steps": [emit] * n + [{"logs": [], "action": act}]}
+        call = {"mid": 1, "args": {}, "take": None, "end": "exhaust"}
+    else:
+        n = 0 if site == "exchange0" else k
+        m = {"name": "target", "kind": "exchange", "params": [], "header": None, "in_cols": cols, "out_cols": cols,
+             "init": {"logs": [], "action": {"op": "ok"}}, "responses": [emit] * n + [{"logs": [], "action": act}]}
+        call = {"mid": 1, "args": {}, "inputs": [{"c0": [5]}] * (n + 1), "end": case["end"]}
+    calls = ([{"mid": 0, "args": {"p0": 3}}] if case["ok_first"] else []) + [call, {"mid": 0, "args": {"p0": 4}}]
+    return {"methods": [ok_unary, m], "calls": calls}
+
+
+def run_site(case: dict[str, Any]) -> Outcome:
+    out = run_case({"spec": site_spec(case), "cfg": case["cfg"], "level": case["level"], "fmt_cap": case["fmt_cap"]})
+    out.label(f"site={case['site']}")
+    out.nontrivial = True
+    return out
 
 
 # ------------------------------------------------------------------ oracle pieces
@@ -448,4 +504,5 @@ def run_case(case: dict[str, Any]) -> Outcome:
 
 
 def main(chk: Check) -> None:
-    chk.explore("histories", histories(), run_case, quick=360, thorough=6000)
+    chk.explore("histories", histories(), run_case, quick=210, thorough=4000)
+    chk.explore("sites", sites, run_site, quick=330, thorough=6000)
